@@ -551,8 +551,10 @@ def main():
     for sc in scenarios:
         out = Out()
         sys.stdout = out
-        DEADLOCK["released"] = False
-        DEADLOCK["sc"] = sc["id"] if sc["kind"] == "schedule" else None
+        # (fault scenarios hold no thread: the observer is armed at once)
+        DEADLOCK["released"] = sc["kind"] == "fault"
+        DEADLOCK["sc"] = sc["id"] if sc["kind"] in ("schedule", "fault") \
+            else None
         try:
             if sc["kind"] == "fault":
                 r = run_fault_scenario(sc, out, before)
